@@ -4,15 +4,15 @@ C19 — heap model of parsing: values carry object ids.
 Hand-written mirror of the code paths that decide *which object* a parse returns:
 
 * `copy_value`                       utype/utils/functional.py:7-30
-* `ParserField.get_default`          utype/parser/field.py:786-814
-* `TypeTransformer.__call__/apply`   utype/utils/transform.py:723-746   (exact-type shortcut)
-* `to_array_types`, `to_dict`, `to_integer`   utype/utils/transform.py:255-396, 413-446
-* `Rule.parse` + `_parse_seq_args/_parse_tuple_args/_parse_map_args`   utype/parser/rule.py:1703-1774, 1925-2079
-* `LogicalType.logical_parse` (`Optional[T]` only)   utype/parser/rule.py:368-481
-* `transform_dataclass`, `init_dataclass`, generated `__init__`, `set_attributes`   utype/parser/cls.py:436-467, 499-557, 590-647
-* `BaseParser.parse_data` (data-first and field-first)   utype/parser/base.py:367-692
-* `FunctionParser.parse_params`      utype/parser/func.py:611-680
-* `Schema.__post_init__/__field_getter__/__field_setter__/copy`, DataClass setter/getter   utype/schema.py:275-281, 289-313, 322-354, 498-504; cls.py:275-290, 318-326
+* `ParserField.get_default`          utype/parser/field.py:803-831
+* `TypeTransformer.__call__/apply`   utype/utils/transform.py:725-748   (exact-type shortcut)
+* `to_array_types`, `to_dict`, `to_integer`   utype/utils/transform.py:258-398, 415-448
+* `Rule.parse` + `_parse_seq_args/_parse_tuple_args/_parse_map_args`   utype/parser/rule.py:1706-1777, 1938-2093
+* `LogicalType.logical_parse` (`Optional[T]` only)   utype/parser/rule.py:371-484
+* `transform_dataclass`, `init_dataclass`, generated `__init__`, `set_attributes`   utype/parser/cls.py:436-467, 499-565, 598-659
+* `BaseParser.parse_data` (data-first and field-first)   utype/parser/base.py:376-705
+* `FunctionParser.parse_params`      utype/parser/func.py:614-683
+* `Schema.__post_init__/__field_getter__/__field_setter__/copy`, DataClass setter/getter   utype/schema.py:280-286, 294-318, 327-369, 513-519; cls.py:275-290, 318-326
 * `BaseParser.apply_for` (`__parsers__` cache)   utype/parser/base.py:42-65
 * `TypeRegistry.resolve` cache       utype/utils/base.py:101-128  (after the C16 fix)
 
@@ -86,7 +86,7 @@ def Kind.isSeq (k : Kind) : Bool :=
 abbrev Kind.deque : Kind := .opq 1
 abbrev Kind.bytearray : Kind := .opq 0
 
-/-- the classes `to_array_types` is registered for (transform.py:255): list, tuple, set, frozenset, deque -/
+/-- the classes `to_array_types` is registered for (transform.py:258): list, tuple, set, frozenset, deque -/
 def Kind.isSeqTarget : Kind → Bool
   | .list | .tuple | .set | .fset | .opq 1 => true
   | _ => false
@@ -353,7 +353,7 @@ structure Field where
   dflt : Dflt
   noOutput : Bool := false
   defer : Bool := false        -- `Field(defer_default=True)`: the default is not filled in by the parse
-  ci : Bool := false         -- `setup_case_insensitive` (field.py:554-560): decided once, by the Options of the class that
+  ci : Bool := false         -- `setup_case_insensitive` (field.py:555-561): decided once, by the Options of the class that
                              -- *declares* the field; a subclass takes the field over as it is
   deriving Repr
 
@@ -416,7 +416,7 @@ def Env.declIds (E : Env) : List Nat := mutIdsL E.dfltVals
 /-- … and those of them `copy_value` does not rebuild (empty when defaults are list/set/tuple/dict nests) -/
 def Env.leak (E : Env) : List Nat := opqIdsL E.dfltVals
 
-/-- `ParserField.get_default` — field.py:786-814 for the field's own default -/
+/-- `ParserField.get_default` — field.py:803-831 for the field's own default -/
 def getDefault0 : Dflt → St → Option Val × St
   | .none, s => (Option.none, s)                                           -- `return unprovided`
   | .val d, s => match copyValue d s with | (v, s1) => (some v, s1)        -- `copy_value(self.default)`
@@ -425,16 +425,16 @@ def getDefault0 : Dflt → St → Option Val × St
       match sh.build s with
       | (d, s1) => match copyValue d s1 with | (v, s2) => (some v, s2)
 
-/-- … with the running options: `no_default` first, then `force_default`, then the field (field.py:788-814) -/
+/-- … with the running options: `no_default` first, then `force_default`, then the field (field.py:805-831) -/
 def getDefault (ro : ROpts) (d : Dflt) : St → Option Val × St := fun s =>
   if ro.noDefault then (Option.none, s)
   else match ro.force with
     | some a => (match copyValue a s with | (v, s1) => (some v, s1))       -- `copy_value(options.force_default)`
     | Option.none => getDefault0 d s
 
-/-- `get_default(options, defer)` — field.py:791-797, the `defer` test before the default is looked up:
+/-- `get_default(options, defer)` — field.py:808-814, the `defer` test before the default is looked up:
 the parse asks with `defer=False` and gets nothing for a deferred default; attribute access on a Schema instance asks with
-`defer=True` (schema.py:308-313 `__field_getter__`) and gets nothing for a default that is *not* deferred. -/
+`defer=True` (schema.py:311-318 `__field_getter__`) and gets nothing for a default that is *not* deferred. -/
 def getDefaultAt (defer fdefer : Bool) (ro : ROpts) (d : Dflt) : St → Option Val × St := fun s =>
   if ro.noDefault then (Option.none, s)
   else if (!defer && (fdefer || ro.deferDefault)) || (defer && !(fdefer || ro.deferDefault)) then (Option.none, s)
@@ -446,7 +446,7 @@ def junkStrings : List String := ["x", "w", "zz", "q"]
 
 def isDigits (s : String) : Bool := !s.isEmpty && s.toList.all Char.isDigit
 
-/-- `to_integer` on atoms — transform.py:413-446 -/
+/-- `to_integer` on atoms — transform.py:415-448 -/
 def convInt (o : Opts) : Val → Res
   | .int i => .ok (.int i)                                   -- `type(data) == t` → `return data`
   | .str x =>
@@ -469,7 +469,7 @@ def mkSeq (k : Kind) (items : List Val) (written : Bool) : Comp := fun s =>
   else mk k [] items written s
 
 /-- `apply(value, origin, func=to_array_types)` for origin ∈ {list, tuple, set, frozenset}
-(transform.py:255-309, 723-746) and `to_dict` for origin = dict (transform.py:313-396). -/
+(transform.py:258-311, 725-748) and `to_dict` for origin = dict (transform.py:315-398). -/
 def convBare (o : Opts) (k : Kind) (v : Val) : Comp := fun s =>
   if k.isSeqTarget then
     match v with
@@ -509,7 +509,7 @@ def convBare (o : Opts) (k : Kind) (v : Val) : Comp := fun s =>
     | _ => (.error (.unmodelled "bytearray from an atom"), s)
   else (.error (.unmodelled "bare kind"), s)
 
-/-- `value[:n]` — `lax_length` / `lax_max_length` (rule.py:1060-1092): a *new* object for list / tuple / bytearray,
+/-- `value[:n]` — `lax_length` / `lax_max_length` (rule.py:1063-1095): a *new* object for list / tuple / bytearray,
 TypeError (→ ParseError) for what cannot be sliced -/
 def laxCut (n : Nat) : Val → Comp
   | .node _ k _ xs, s => if k.sliceable then mk k.base [] (xs.take n) false s else (.error .perr, s)
@@ -525,7 +525,7 @@ def andThen (c : Comp) (f : Val → Comp) : Comp := fun s =>
   | (.error e, s1) => (.error e, s1)
   | (.ok v, s1) => f v s1
 
-/-- `length` / `lax_length` (rule.py:1051-1070) -/
+/-- `length` / `lax_length` (rule.py:1054-1073) -/
 def consLength (c : Option (Nat × Bool)) (v : Val) : Comp := fun s =>
   match c with
   | Option.none => (.ok v, s)
@@ -534,7 +534,7 @@ def consLength (c : Option (Nat × Bool)) (v : Val) : Comp := fun s =>
       else if lax && lenOf v > n then laxCut n v s    -- `return value[:lg]`
       else (.error .perr, s)
 
-/-- `max_length` / `lax_max_length` (rule.py:1073-1092) -/
+/-- `max_length` / `lax_max_length` (rule.py:1076-1095) -/
 def consMax (c : Option (Nat × Bool)) (v : Val) : Comp := fun s =>
   match c with
   | Option.none => (.ok v, s)
@@ -543,13 +543,13 @@ def consMax (c : Option (Nat × Bool)) (v : Val) : Comp := fun s =>
       else if lax then laxCut n v s                   -- `return value[:m]`
       else (.error .perr, s)
 
-/-- `min_length` (rule.py:1095-1101) -/
+/-- `min_length` (rule.py:1098-1104) -/
 def consMin (c : Option Nat) (v : Val) : Comp := fun s =>
   match c with
   | Option.none => (.ok v, s)
   | some n => if lenOf v < n then (.error .perr, s) else (.ok v, s)
 
-/-- the length validators in the order of `Rule.__constraints__` (rule.py:1155-1157): length, max_length, min_length -/
+/-- the length validators in the order of `Rule.__constraints__` (rule.py:1158-1160): length, max_length, min_length -/
 def applyCons (length maxLength : Option (Nat × Bool)) (minLength : Option Nat) (v : Val) : Comp :=
   andThen (andThen (consLength length v) (consMax maxLength)) (consMin minLength)
 
@@ -583,7 +583,7 @@ def lookupKV (k : String) : List String → List Val → Option Val
 /-- does input key `key` address field `f`?  A field set up case-insensitively has lower-cased aliases and its
 keys are lower-cased before the lookup (base.py `generate_aliases`, `field_first_parse`): any letter case matches.
 A field set up case-sensitively matches its exact name only — in whatever class it is used (`is_case_insensitive`
-returns the recorded setup decision, field.py:767-772). -/
+returns the recorded setup decision, field.py:784-789). -/
 def keyMatches (f : Field) (key : String) : Bool :=
   if f.ci then key.toLower == f.name.toLower else key == f.name
 
@@ -591,7 +591,7 @@ def lookupF (f : Field) : List String → List Val → Option Val
   | a :: as, v :: vs => if keyMatches f a then some v else lookupF f as vs
   | _, _ => Option.none
 
-/-- Field-first search — base.py:557-692: for every field, its input value or its default. -/
+/-- Field-first search — base.py:570-705: for every field, its input value or its default. -/
 def fieldsFF (rec : Ty → Val → Comp) (ro : ROpts) (keys : List String) (items : List Val) :
     List Field → St → Except Err (List (String × Val)) × St
   | [], s => (.ok [], s)
@@ -615,7 +615,7 @@ def fieldsFF (rec : Ty → Val → Comp) (ro : ROpts) (keys : List String) (item
             | (.error e, s2) => (.error e, s2)
             | (.ok r, s2) => (.ok ((f.name, d) :: r), s2)
 
-/-- Data-first search, first loop — base.py:444-555: parse the provided items in input order. -/
+/-- Data-first search, first loop — base.py:457-568: parse the provided items in input order. -/
 def dataLoop (rec : Ty → Val → Comp) (fields : List Field) :
     List String → List Val → St → Except Err (List (String × Val)) × St
   | k :: ks, v :: vs, s =>
@@ -659,7 +659,7 @@ def parseData (rec : Ty → Val → Comp) (ro : ROpts) (d : Decl) (keys : List S
 
 inductive Style where
   | kw      -- `Cls(**data)`
-  | pos     -- `Cls(data)`            (cls.py:506-508  `kwargs.update(_d)`)
+  | pos     -- `Cls(data)`            (cls.py:514-518  `kwargs.update(keyword_data(cls, _d, context))`)
   | from_   -- `Cls.__from__(data)`   (init_dataclass)
   deriving DecidableEq, Repr
 
@@ -735,7 +735,7 @@ def conv (L : Ty → Cid) (E : Env) (o : Opts) : Nat → Ty → Val → Comp
   | 0, _, _ => fun s => (.error .fuel, s)
   | fuel + 1, ty, v => fun s =>
     match ty with
-    | .any => (.ok v, s)                                              -- rule.py:2099-2103: `return value`
+    | .any => (.ok v, s)                                              -- rule.py:2113-2117: `return value`
     | .int => (convInt o v, s)
     | .bare k => convBare o k v s
     | .seq k t =>
@@ -774,7 +774,9 @@ def conv (L : Ty → Cid) (E : Env) (o : Opts) : Nat → Ty → Val → Comp
             | (.ok r, s3) => mk .tuple [] r.kids false s3
         | (.ok _, s1) => (.error (.unmodelled "origin transform returned an atom"), s1)
     | .con t lg mx mn =>
-        -- Rule.parse (rule.py:1703-1774): transform to the origin (+ args), then the validators on the result
+        -- Rule.parse (rule.py:1706-1777): transform to the origin (+ args), then the validators on the result.
+        -- The argument loops read the converted container once through `_read_items` (rule.py:1833-1841: `list(value)`,
+        -- a temporary the loops iterate over; nothing is written to `value` and the temporary is not part of any result)
         match conv L E o fuel t v s with
         | (.error e, s1) => (.error e, s1)
         | (.ok r, s1) => applyCons lg mx mn r s1
@@ -829,7 +831,7 @@ def callWith (optsOf : List (Option Opts) → Nat → Opts) (L : Ty → Cid) (re
       let o := optsOf d.wrappers wrapper
       -- positional arguments are looked up by position, the rest by name; both go through `parse_value`,
       -- missing ones through `get_default`; the order differs, the objects do not
-      -- All four wrappers create their RuntimeContext *inside* the call (func.py:562, 803, 895, 939), resolve the
+      -- All four wrappers create their RuntimeContext *inside* the call (func.py:562, 806, 898, 942), resolve the
       -- parameters through the same `get_params`/`parse_params`, and differ only in when that happens (at the call
       -- when `eager`, else at the first `await` / `next`): `fkind` and `eager` do not enter the outcome.
       -- `parse_params`: `parsed_kwargs = self.parse_data(kwargs, ..)` — a result dict like any other
@@ -840,7 +842,7 @@ def callWith (optsOf : List (Option Opts) → Nat → Opts) (L : Ty → Cid) (re
         match d.ret with
         | Option.none => mkBinding vals s1
         | some (fname, ty) =>
-          -- `parse_result` (func.py:721-730): the returned value goes through the transformer with the same context
+          -- `parse_result` (func.py:724-733): the returned value goes through the transformer with the same context
           match lookupKV fname (vals.map (·.1)) (vals.map (·.2)) with
           | Option.none => mkBinding vals s1
           | some v =>
@@ -946,7 +948,7 @@ def instDelF (fname : String) : Kind → List String → List Val → Option (Li
     | _, _ => Option.none
 
 /-- `inst.field = atom` for a declared field whose type accepts the atom unchanged:
-Schema `__field_setter__` (schema.py:322-354): no_output → `self.__dict__[attname] = v`, drop the item;
+Schema `__field_setter__` (schema.py:327-369): no_output → `self.__dict__[attname] = v`, drop the item;
 otherwise `dict.__setitem__(self, name, v)`.  DataClass setter (cls.py:275-290): `__dict__[attname] = v`. -/
 def setattrWrites (d : Decl) (fname : String) (v : Val) : Val → List (Nat × (Kind → List String → List Val → Option (List String × List Val)))
   | .node i (.inst _ _) _ (.node a .dict _ _ :: _) =>
@@ -1012,7 +1014,7 @@ def Outcome.ofErr : Err → Outcome
   | .unmodelled w => .unmodelled w
   | .fuel => .unmodelled "fuel"
 
-/-- `kwargs.update(_d)` (cls.py:506-508): the keyword arguments, overridden by the positional dict's entries -/
+/-- `kwargs.update(_d)` (cls.py:514-518): the keyword arguments, overridden by the positional dict's entries -/
 def mergeKV : List String → List Val → List String × List Val → List String × List Val
   | k :: ks, x :: xs, acc => mergeKV ks xs (setKV k x acc.1 acc.2)
   | _, _, acc => acc
